@@ -116,7 +116,7 @@ def _tensor_samples(b: _B):
     "facet restriction blocks, blocked components, shared lhs, literal factors; coefficient/Jacobian definitions "
     "with equal and different ranges), return code whose symbolic meaning - final A / defined scalars as polynomials "
     "in the input symbols, for arbitrary initial A - equals that of the input, and which is well formed",
-    min_instances=10,
+    min_instances=14,
 )
 def pass_equiv(repo, res):
     b = _B(repo)
@@ -187,6 +187,17 @@ def pass_equiv(repo, res):
         res.ob(key2)
         if sorted(names) != sorted(outs):
             res.fail(key2, f"after fusing, the declared symbols are {sorted(names)}, expected {sorted(outs)}", opt.line(g.node))
+    # the same definitions with the longest sum last (a wrongly shared range would overrun the shorter tables)
+    key = f"{g.key}:equiv:definitions, longest loop last"
+    res.ob(key)
+    code = defs()
+    code = [code[0], code[1], code[5], code[3], code[4], code[2]]
+    orig = copy.deepcopy(code)
+    try:
+        out = b.I.call_f(g, [code, None])
+        compare(key, "optimize on the definition sections with the longest sum last", b.quadloop(orig), b.quadloop(out), outs, opt.line(g.node), DEF_EXTENTS)
+    except Raised as e:
+        res.fail(key, f"optimize raises ({e.what}) on definition sections", opt.line(g.node))
     # ---- fuse_sections alone keeps the other sections in place
     h = opt.funcs["fuse_sections"]
     key = f"{h.key}:equiv"
